@@ -43,6 +43,10 @@ def _small_spec(rng, start=None):
         notes = [[rng.choice(chans), rng.choice((60, 61)), 12 * rng.randrange(0, 5), 12 * rng.randint(1, 4), rng.randint(1, 127)]
                  for _ in range(rng.randint(2, 4))]
     extra = gen.rand_extras(rng, rng.randint(0, 2), 70, kinds=("cc", "ts", "ks", "pc"), chans=chans)
+    sig = [e for e in extra if e[0] in ("ts", "ks")]
+    if sig and rng.random() < 0.35:
+        # the same signature twice on one tick (merged tracks each carry their own copy): two events, in both views
+        extra.append(list(rng.choice(sig)))
     spec = {"notes": notes, "extra": extra, "start": start or rng.choice(["abs", "rel", "both"])}
     if rng.random() < 0.3:
         spec["pad"] = rng.randrange(0, 120)
